@@ -180,6 +180,9 @@ impl Property for C01 {
         });
         Box::new(flips.chain(fields))
     }
+    fn fuzz_plans(&self) -> Vec<(&'static str, u64)> {
+        vec![("wire_raw", 30000), ("wire_struct", 15000)]
+    }
     fn gen(&self, c: &mut Choices) -> Case {
         Case::Wire(gen_case(c, None))
     }
